@@ -99,6 +99,21 @@ struct RunCtx {
 };
 static RunCtx* g = nullptr;
 
+// Join the helper threads of asynchronous processors.  A helper is created by the thread that runs the processor
+// (main, a pool worker — stopped before this is called —, an injector — joined before —, or another helper) and is
+// stored in its slot only after its creation, so passes are repeated until a whole pass finds nothing to join.
+static void join_helpers() {
+  bool again = true;
+  while (again) {
+    again = false;
+    for (size_t i = 0; i < g->helpers.size(); ++i)
+      if (g->helpers[i].joinable()) {
+        g->helpers[i].join();
+        again = true;
+      }
+  }
+}
+
 static void yields(int n) {
   for (int i = 0; i < n; ++i) sched_yield();
 }
@@ -181,8 +196,9 @@ class MixProcessor : public GraphProcessor {
       // hand the closure to another thread, which emits later and then completes the closure
       int n = 1 + (int)(g->delay_seed++ % 5);
       auto* self = this;
-      // (thread creation is a scheduling point: build the thread first, then append it — the shared vector must not
-      // be in the middle of a reallocation when another worker gets the baton)
+      // one slot per vertex (a vertex runs at most once per cycle; if the code under test breaks that, the oracle
+      // has already said so and the previous helper is detached).  Thread creation is a scheduling point: the new
+      // thread may even finish before the slot is assigned, see join_helpers().
       std::thread helper([self, ins, n, c = std::move(closure)]() mutable {
         yields(n);
         self->emit_all(ins);
@@ -190,7 +206,9 @@ class MixProcessor : public GraphProcessor {
         vrt_event("done %d", self->spec->id);
         c.done(0);
       });
-      g->helpers.push_back(std::move(helper));
+      std::thread& slot = g->helpers[spec->id];
+      if (slot.joinable()) slot.detach();
+      slot = std::move(helper);
       return;
     }
     emit_all(ins);
@@ -421,6 +439,7 @@ static void run_graph(uint64_t seed, const std::string& mode) {
     rc.activated.assign(s.verts.size(), 0);
     rc.publishes.assign(s.ndata, 0);
     rc.delay_seed = rng.next();
+    rc.helpers.resize(s.verts.size());
     g = &rc;
     name_graph(b);
     std::unique_ptr<ThreadPoolGraphExecutor> tp;
@@ -507,12 +526,12 @@ static void run_graph(uint64_t seed, const std::string& mode) {
       vrt_event("waited");
       if (rc.inflight != 0) vrt_event("ORACLE wait-early wait() returned while %d processors are still running", rc.inflight);
       rc.waited = true;
-      for (auto& t : injectors) t.join();
-      for (size_t i = 0; i < rc.helpers.size(); ++i) {   // (mode inject: a late cascade may still append helpers)
-        std::thread t = std::move(rc.helpers[i]);
-        t.join();
+      if (pool) {
+        tp->stop();
+        b.exec.inner = &inplace;
       }
-      rc.helpers.clear();
+      for (auto& t : injectors) t.join();
+      join_helpers();
       // oracle on the outcome
       bool expect_ok = !ref.failed;
       if (!racing) {
@@ -580,10 +599,6 @@ static void run_graph(uint64_t seed, const std::string& mode) {
           pos += key.size();
         }
         if (flushes != 1) vrt_event("ORACLE dup-flush the closure's vertex count returned to 0 %d times", flushes);
-      }
-      if (pool) {
-        tp->stop();
-        b.exec.inner = &inplace;
       }
       vrt_event("stats steps %lu switches %lu", vrt_steps(), vrt_switches());
       vrt_end();
